@@ -267,7 +267,7 @@ def limiter_closure(cx, cp):
     return ok1, ok2 and not strict, rest
 
 
-@obligation("LOGGUARD.limit_size", ["C13", "C14", "C19"], floor=2, kind="closure shape",
+@obligation("LOGGUARD.limit_size", ["C13", "C14", "C19", "C07", "C01"], floor=2, kind="closure shape",
             why="size-limited reads must return a non-empty maximal prefix within the limit")
 def limit_size(cx):
     f = cx.fn("util::limit_size")
@@ -280,6 +280,32 @@ def limit_size(cx):
     tw_args = [x for c in cx.prog.all_calls if c.fn is f and c.data["callee"].endswith("::take_while") for a_ in call_args(cx, c) for x in walk(a_) if x[0] == "closure"]
     if tw_args or not any(c.fn is f and c.data["callee"].endswith("::take_while") for c in cx.prog.all_calls):
         clos = [sp for sp in clos if any(strip_generics(x[1]) == strip_generics(sp) or x[1] == sp for x in tw_args)]
+    pos_calls = [c for c in cx.prog.all_calls if c.fn is f and c.data["callee"].endswith("::position")]
+    pos_clos = [x for c in pos_calls for a_ in call_args(cx, c) for x in walk(a_) if x[0] == "closure"]
+    if not clos and len(pos_clos) == 1:
+        # third form: `if let Some(k) = entries.iter().position(|e| <e no longer fits>) { entries.truncate(k) }` -- the
+        # predicate is the negation of the take_while one: false while nothing was counted yet, else `max < size so far`
+        from ..idioms import closure_returns
+        r = closure_returns(cx.prog, pos_clos[0][1]) or []
+        first = [(lits, v) for lits, v, _ in r if v == ("bool", False)]
+        rest = [(lits, v) for lits, v, _ in r if v != ("bool", False)]
+        ok1 = any(any(l[0] == "in" and l[2] == frozenset([0]) for l in lits) for lits, v in first)
+        def over_budget(v):
+            if v[0] == "un" and v[1] == "Not":
+                v = v[2]
+                return v[0] == "bin" and v[1] == "Le"
+            return v[0] == "bin" and v[1] == "Lt"   # `max < size so far` (strict: an entry that exactly fills the limit is kept)
+        ok2 = bool(rest) and all(over_budget(v) for lits, v in rest)
+        cx.check(len(pos_clos) == 1, "closure", "limit_size finds the cut with one position() predicate")
+        cx.check(ok1, "first-always", "the first entry is always kept (nothing counted yet -> not over budget)")
+        cx.check(ok2, "within-limit", "a further entry is cut iff the cumulative size exceeds max, strictly (found %s)" % [show(v)[:80] for _, v in rest][:2])
+        tr = [c for c in cx.prog.all_calls if c.fn is f and c.data["callee"].endswith("Vec::truncate")]
+        cx.check(len(tr) == 1, "truncate", "the vector is truncated to the counted prefix")
+        if tr:
+            k = call_args(cx, tr[0])[1]
+            okk = k[0] == "vfield" and k[1][0] == "call" and k[1][1].endswith("::position")
+            cx.check(okk, "truncate:counter", "truncate receives the position found (found %s)" % show(k)[:80])
+        return
     if not clos:
         # second form: an explicit loop with a kept-counter and a running byte size,
         #   for e in entries { let first = size == 0; size += e.compute_size(); if !first && size > max { break } kept += 1 }
